@@ -350,7 +350,8 @@ class Result:
 
 
 def write_evidence(prop, tier, seed, level, coverage, assumptions, wall_s, violations):
-    d = os.path.join(VERIF, "evidence")
+    # evidence describes runs against /repo itself; a run pointed at a scratch tree (VERIF_REPO) writes elsewhere
+    d = os.path.join(VERIF, "evidence") if os.path.realpath(REPO) == "/repo" else os.path.join("/tmp", "verif_scratch_evidence")
     os.makedirs(d, exist_ok=True)
     ev = {
         "property_id": prop,
